@@ -448,6 +448,28 @@ impl Case for C19Case {
             }
         };
         if judged {
+            if self.entropy % 3 == 0 {
+                // a direct line that is refused at compile time itself (with WHILE / WEND / a dangling
+                // branch in it) is reported and leaves nothing behind for the next direct line
+                const POISON: [&str; 6] = [
+                    "WHILE X<3:DIM A",
+                    "WEND:DIM A",
+                    "FOR I=1 TO 2:WHILE 1:DIM A",
+                    "WHILE 1:PRINT (",
+                    "WHILE 1:GOTO 64999",
+                    "WEND",
+                ];
+                let line = POISON[((self.entropy / 3) % 6) as usize];
+                let o = w.line(line, &LineIo::budget(200));
+                let t = tokens(&w.events[o.ev_start..o.ev_end]);
+                w.stats.bump("c19.refused_direct_line");
+                if !matches!(t.as_slice(), [Tok::Err(_), ..]) && fail.is_none() && w.fatal.is_none() {
+                    fail = Some(Violation {
+                        key: "C19:refused-direct-line:not-reported".into(),
+                        detail: format!("{:?} typed on the damaged program gave {:?}", line, t),
+                    });
+                }
+            }
             harmless(&mut w, &mut fail, "after the damage");
             w.line("TRON", &LineIo::budget(100));
             let probes = probe_lines(&self.prog);
@@ -925,7 +947,7 @@ impl Property for C19 {
         }
     }
     fn rule(&self) -> &'static str {
-        "one evaluation = a clean generated program typed into the real runtime, optionally RUN to its end or to a Ctrl-C at a seeded instruction (leaving frames, a CONT point, defined functions), then 1-4 planted faults typed as edits (dangling reference in GOTO / GOSUB / IF..THEN n / ELSE n / IF..GOTO n / ON..GOTO / ON..GOSUB / RESTORE n / RUN n, stray WHILE or WEND, token-level syntax damage; on a new line or in front of an existing line; 0-2 ASCII / multi-byte statements before the fault), then TRON and one of 13 doors (RUN, RUN n, GOTO n, GOSUB n, ON 1 GOTO n, ON 1 GOSUB n, IF 1 THEN n, FOR..GOSUB n..NEXT, CONT, RETURN, NEXT, PRINT FNx(..), RUN \"file\" from the SimDisk), in 40% followed by CONT, in 25% typed behind `PRINT \"X\";:`; 6% of the programs damage themselves (their first line DELETEs the target of a later GOTO, RUN first); variable probes before and after, harmless PRINT before and after, a failing direct statement under TRON and an interrupted direct loop after the door (reported without a line number, nothing traced), RUN and LIST for the diagnostics; distinct = distinct API/event log fingerprint; non-trivial = damage was placed and the listing is what was typed"
+        "one evaluation = a clean generated program typed into the real runtime, optionally RUN to its end or to a Ctrl-C at a seeded instruction (leaving frames, a CONT point, defined functions), then 1-4 planted faults typed as edits (dangling reference in GOTO / GOSUB / IF..THEN n / ELSE n / IF..GOTO n / ON..GOTO / ON..GOSUB / RESTORE n / RUN n, stray WHILE or WEND, token-level syntax damage; on a new line or in front of an existing line; 0-2 ASCII / multi-byte statements before the fault), then TRON and one of 13 doors (RUN, RUN n, GOTO n, GOSUB n, ON 1 GOTO n, ON 1 GOSUB n, IF 1 THEN n, FOR..GOSUB n..NEXT, CONT, RETURN, NEXT, PRINT FNx(..), RUN \"file\" from the SimDisk), in 40% followed by CONT, in 25% typed behind `PRINT \"X\";:`; 6% of the programs damage themselves (their first line DELETEs the target of a later GOTO, RUN first); variable probes before and after, in a third a direct line that is itself refused at compile time (unmatched WHILE / WEND, DIM without subscripts, dangling GOTO) typed first, harmless PRINT before and after, a failing direct statement under TRON and an interrupted direct loop after the door (reported without a line number, nothing traced), RUN and LIST for the diagnostics; distinct = distinct API/event log fingerprint; non-trivial = damage was placed and the listing is what was typed"
     }
     fn assumptions(&self) -> Vec<&'static str> {
         vec![
